@@ -591,10 +591,13 @@ class Parser:
                 p.value = self._decode_fstring_literal(p.value, raw)
             elif isinstance(p, ast.FormattedValue) and isinstance(p.format_spec, ast.JoinedStr):
                 self._decode_fstring_parts(p.format_spec.values, raw)
+        # a literal part that decodes to nothing (a backslash-newline only) is not a part
+        parts[:] = [p for p in parts if not (isinstance(p, ast.Constant) and p.value == "")]
 
     @staticmethod
     def _decode_fstring_literal(text: str, raw: bool) -> str:
         text = text.replace("{{", "{").replace("}}", "}")
+        text = text.replace("\r\n", "\n").replace("\r", "\n")  # newlines are translated as in any other source text
         if raw or "\\" not in text:
             return text
         tail = ""
